@@ -44,7 +44,52 @@ NRM = [2.0 / 3, -1.0 / 3, 2.0 / 3]
 REF = [1.0, 2.0, 3.0]
 
 
+def _install_tracer_shims():
+    """Two additive shims for tools/symtrace.NpShim that the stacked routines need when they are written with a NaN-filled
+    output buffer (np.full(k, nan) + np.divide(num, den, out=..., where=mask)). Installed only if symtrace does not define
+    them itself (the tracer is a shared tool: the same code is proposed for it in my report); fail-closed otherwise:
+      * full(shape, nan, dtype=float): an object array of plain float NaN (flatten_result already reports such elements
+        as {"nan": True}; arithmetic of a NaN element with a symbol still raises `non-finite constant`);
+      * divide(a, b, out=, where=): elementwise a / b on object arrays where the (concrete) mask is true, `out` elsewhere."""
+    import symtrace
+
+    shim = symtrace.NpShim
+    if "divide" not in shim.__dict__:
+        def divide(self, a, b, out=None, where=True, **kw):
+            aa, bb = np.asarray(a), np.asarray(b)
+            if aa.dtype != object and bb.dtype != object and not isinstance(a, symtrace.Sym) and not isinstance(b, symtrace.Sym) \
+                    and (out is None or np.asarray(out).dtype != object):
+                return np.divide(a, b, out=out, where=where, **kw) if out is not None or where is not True else np.divide(a, b, **kw)
+            aa, bb, ww = np.broadcast_arrays(aa, bb, np.asarray(where, dtype=bool))
+            res = np.empty(aa.shape, dtype=object)
+            if out is not None:
+                res[...] = np.asarray(out, dtype=object)
+            elif not ww.all():
+                raise symtrace.TraceError("np.divide with where= but without out=")
+            fr, fa, fb, fw = res.reshape(-1), aa.reshape(-1), bb.reshape(-1), ww.reshape(-1)
+            for i in range(fr.shape[0]):
+                if fw[i]:
+                    fr[i] = self._t.lift(fa[i]) / self._t.lift(fb[i])
+            return res
+
+        shim.divide = divide
+        shim.true_divide = divide
+    if not getattr(shim.full, "_nan_aware", False):
+        plain_full = shim.full
+
+        def full(self, shape, fill_value, dtype=None, **kw):
+            if isinstance(fill_value, float) and fill_value != fill_value:
+                out = np.empty(shape, dtype=object)
+                out[...] = float("nan")
+                return out
+            return plain_full(self, shape, fill_value, dtype=dtype, **kw)
+
+        full._nan_aware = True
+        shim.full = full
+
+
 def kernels():
+    _install_tracer_shims()
     from polliwog import Plane, Polyline
     from polliwog.plane import intersect_segment_with_plane
 
@@ -100,7 +145,7 @@ def kernels():
         "  let res := line_xsections ROps %s [V3 p0 p1 p2; V3 p3 p4 p5] [V3 q0 q1 q2; V3 q3 q4 q5] in\n"
         "  map (option_map vlist) (fst res) = [Some (firstn 3 ({T} ROps {vars})); Some (skipn 3 ({T} ROps {vars}))]\n"
         "  /\\ snd res = [true; true].\n" % PL
-        + HEAD + "  cbn [firstn skipn negb]. split; [|reflexivity]. repeat (apply cons_eq; [same_values|]). reflexivity. Qed.",
+        + HEAD + "  all: (cbn [firstn skipn negb]; split; [|reflexivity]; repeat (apply cons_eq; [same_values|]); reflexivity). Qed.",
         imports=IMPORTS, perturb=1e-9))
     # row 0 crosses, row 1 has both ends on the same side: NaN row, flagged invalid
     ks.append(Kernel(
@@ -109,7 +154,7 @@ def kernels():
         "Lemma {T}_ok : forall {vars} : R, {T}_path ROps {vars} ->\n"
         "  let res := line_segment_xsections ROps %s [%s; %s] [%s; %s] in\n"
         "  map (option_map vlist) (fst res) = [Some ({T} ROps {vars}); None] /\\ snd res = [true; false].\n" % (PL, A, A2, B, B2)
-        + HEAD + "  cbn [negb]. split; [|reflexivity]. apply cons_eq; [same_values|reflexivity]. Qed.",
+        + HEAD + "  all: (cbn [negb]; split; [|reflexivity]; apply cons_eq; [same_values|reflexivity]). Qed.",
         imports=IMPORTS, perturb=1e-9,
         expect_structure={"tuple": [{"shape": [2, 3], "data": ["e", "e", "e", {"nan": True}, {"nan": True}, {"nan": True}]},
                                     {"shape": [2], "dtype": "bool", "data": [True, False]}]}))
@@ -124,19 +169,19 @@ def kernels():
         "isp_cross", {"s": [4.0, 0.0, 5.0], "v": [-6.0, 3.0, -4.0], "r": REF, "n": [2.0, -1.0, 2.0]},
         lambda s, v, r, n: intersect_segment_with_plane(s, v, r, n),
         "Lemma {T}_ok : forall {vars} : R, %s -> {T}_path ROps {vars} -> option_map vlist (%s) = Some ({T} ROps {vars}).\n" % (DEN, ISP)
-        + HEADD + "  same_values. Qed.",
+        + HEADD + "  all: same_values. Qed.",
         imports=IMPORTS))
     ks.append(Kernel(
         "isp_before", {"s": [4.0, 0.0, 5.0], "v": [1.0, 1.0, 2.0], "r": REF, "n": [2.0, -1.0, 2.0]},
         lambda s, v, r, n: intersect_segment_with_plane(s, v, r, n),
         "Lemma {T}_ok : forall {vars} : R, %s -> {T}_path ROps {vars} -> %s = None.\n" % (DEN, ISP)
-        + HEADD + "  reflexivity. Qed.",
+        + HEADD + "  all: reflexivity. Qed.",
         imports=IMPORTS, expect_structure={"shape": [3], "data": [{"nan": True}] * 3}))
     ks.append(Kernel(
         "isp_beyond", {"s": [4.0, 0.0, 5.0], "v": [-1.0, 0.5, -1.0], "r": REF, "n": [2.0, -1.0, 2.0]},
         lambda s, v, r, n: intersect_segment_with_plane(s, v, r, n),
         "Lemma {T}_ok : forall {vars} : R, %s -> {T}_path ROps {vars} -> %s = None.\n" % (DEN, ISP)
-        + HEADD + "  reflexivity. Qed.",
+        + HEADD + "  all: reflexivity. Qed.",
         imports=IMPORTS, expect_structure={"shape": [3], "data": [{"nan": True}] * 3}))
     ks.append(Kernel(
         "isp_stack", {"s": [[4.0, 0.0, 5.0], [4.0, 0.0, 5.0]], "v": [[-6.0, 3.0, -4.0], [1.0, 1.0, 2.0]],
@@ -145,7 +190,7 @@ def kernels():
         "Lemma {T}_ok : forall {vars} : R, %s -> v3 * n3 + v4 * n4 + v5 * n5 <> 0 -> {T}_path ROps {vars} ->\n" % DEN +
         "  map (option_map vlist) (intersect_segments_with_planes ROps [V3 s0 s1 s2; V3 s3 s4 s5] [V3 v0 v1 v2; V3 v3 v4 v5]\n"
         "     [V3 r0 r1 r2; V3 r3 r4 r5] [V3 n0 n1 n2; V3 n3 n4 n5]) = [Some ({T} ROps {vars}); None].\n"
-        + HEAD.replace("intros {vars} Hpath", "intros {vars} Hden Hden2 Hpath") + "  apply cons_eq; [same_values|reflexivity]. Qed.",
+        + HEAD.replace("intros {vars} Hpath", "intros {vars} Hden Hden2 Hpath") + "  all: (apply cons_eq; [same_values|reflexivity]). Qed.",
         imports=IMPORTS,
         expect_structure={"shape": [2, 3], "data": ["e", "e", "e", {"nan": True}, {"nan": True}, {"nan": True}]}))
 
@@ -160,8 +205,8 @@ def kernels():
         "  let res := intersect_plane ROps %s (MkPolyline [V3 v0 v1 v2; V3 v3 v4 v5; V3 v6 v7 v8] true) in\n"
         "  map (option_map vlist) (fst res) = [Some (firstn 3 ({T} ROps {vars})); Some (skipn 3 ({T} ROps {vars}))]\n"
         "  /\\ snd res = [0; 2]%%nat.\n" % PL
-        + HEAD + "  cbn [firstn skipn Z.add Z.abs Z.eqb Z.opp Pos.eqb negb Pos.add Z.pos_sub Pos.succ map fst snd option_map vlist vx vy vz].\n"
-        "  split; [|reflexivity]. repeat (apply cons_eq; [same_values|]). reflexivity. Qed.",
+        + HEAD + "  all: (cbn [firstn skipn Z.add Z.abs Z.eqb Z.opp Pos.eqb negb Pos.add Z.pos_sub Pos.succ map fst snd option_map vlist vx vy vz];\n"
+        "  split; [|reflexivity]; repeat (apply cons_eq; [same_values|]); reflexivity). Qed.",
         imports=IMPORTS, perturb=1e-9,
         expect_structure={"tuple": [{"shape": [2, 3], "data": ["e"] * 6}, {"shape": [2], "dtype": "int64", "data": [0, 2]}]}))
     return ks
